@@ -528,7 +528,7 @@ def _run_plan(plan, pristine_fp, yatiml_dir, yaml_dir, mount, sched, profile=Fal
             continue
         out = exec_op(env, op, None)
         history.append({'t': -1, 'i': i, 'op': op, 'out': out, 'inv': 0, 'ret': 0})
-    shared0 = {k: canon.canon(v) for k, v in env.shared.items()}
+    shared0 = {k: canon.canon_graph(v) for k, v in env.shared.items()}
 
     threads = plan['threads']
     knobs = plan.get('knobs') or {}
@@ -556,6 +556,7 @@ def _run_plan(plan, pristine_fp, yatiml_dir, yaml_dir, mount, sched, profile=Fal
                                'op': cur.cur_op})
 
     transient = []
+    mutated = []
 
     def on_switch(sc, cur, nxt, loc):
         if not transient and cheap() != cheap0:
@@ -574,6 +575,13 @@ def _run_plan(plan, pristine_fp, yatiml_dir, yaml_dir, mount, sched, profile=Fal
                 th.cur_op = i
                 out = exec_op(env, op, th)
                 history.append({'t': tid, 'i': i, 'op': op, 'out': out, 'inv': inv, 'ret': sc.step})
+                j = op.get('shared')
+                if j in env.shared and not mutated and out.get('status') in ('ok', 'exc') \
+                        and not out.get('cancel_fired'):
+                    # (untraced: begin_op of the next operation re-arms tracing)
+                    sys.settrace(None)
+                    if canon.canon_graph(env.shared[j]) != shared0[j]:
+                        mutated.append({'thread': tid, 'index': i, 'shared': j, 'op': op['op']})
         return body
 
     for tid, oplist in enumerate(threads):
@@ -622,12 +630,20 @@ def _run_plan(plan, pristine_fp, yatiml_dir, yaml_dir, mount, sched, profile=Fal
                 'signature': {'engine': 'world', 'oracle': 'user-class-changed'},
                 'detail': {'class': '{}.{}'.format(uid, name), 'attributes': keys[:6]}})
             break
+    if mutated:
+        violations.append({
+            'oracle': "a dumped object (graph) is left untouched",
+            'signature': {'engine': 'world', 'oracle': 'user-object-changed'},
+            'detail': dict(mutated[0], note='first operation after which the object differed; with '
+                                            'concurrent threads another dump may have been in flight')})
     for k, v in env.shared.items():
-        if canon.canon(v) != shared0[k]:
+        if mutated:
+            break
+        if canon.canon_graph(v) != shared0[k]:
             violations.append({
-                'oracle': "a dumped object is left untouched",
+                'oracle': "a dumped object (graph) is left untouched",
                 'signature': {'engine': 'world', 'oracle': 'user-object-changed'},
-                'detail': {'shared': k, 'before': shared0[k], 'after': canon.canon(v)}})
+                'detail': {'shared': k, 'before': shared0[k], 'after': canon.canon_graph(v)}})
             break
 
     stats = {'steps': sc.step, 'switches': sc.switch_count, 'switch_digest': sc.digest(),
